@@ -786,7 +786,9 @@ def run(rng, n_gen, corpus_limit=None, kinds=None) -> dict:
         else:
             flagsets = [[str(x) == "1" for x in (a[1:3] if kind == "cleanup" else a[1:])] for a in good]
         if kind == "cleanup" and not all(flagsets[0]):
-            hist["cleanup: failing conjuncts (fragment, p in body, every deriving rule carries q) " + str(tuple(int(str(x) == "1") for x in good[0][3:]))] += 1
+            hist["cleanup: failing conjuncts (fragment, p in body, every deriving rule carries q) " + str(tuple(int(str(x) == "1") for x in good[0][3:6]))] += 1
+        if kind == "cleanup" and all(flagsets[0]) and len(good[0]) > 6 and str(good[0][6]) == "1":
+            hist["cleanup: implication proved through a chain of predicates"] += 1
         if any(all(f) for f in flagsets):
             hist[f"{kind}: side condition of the theorem holds"] += 1
         else:
